@@ -198,10 +198,12 @@ def craft_cases():
                     yield count, present, True
 
 
-def run_craft(authic, code, curt, count, present, rev):
+def run_craft(authic, code, curt, count, present, rev, badutf=False):
     who = ms.MALLORY
     mid = ms.make_mid(1)
     bodies = {n: ("<%d>" % (n % 100)).encode() for n in present}
+    if badutf:      # the bytes of the complete memo are not UTF-8 (the last gram ends in a lone lead byte)
+        bodies[max(present)] = b"ok\xff\xfe"
     order = list(present)
     if rev:     # reversed, but the zeroth gram stays first (a signed gram ahead of its zeroth gram is C20's subject)
         order = [n for n in order if n == 0] + [n for n in reversed(order) if n != 0]
@@ -214,10 +216,14 @@ def run_craft(authic, code, curt, count, present, rev):
     r = ms.receiver(authic)
     viols = []
     ex = ms.deliver(r, [(g, SRC) for g in seq])
-    what = "crafted %s %s grams count=%d numbers=%r%s (authic=%s)" % (code, "b2" if curt else "b64", count, present,
-                                                                     " reversed" if rev else "", authic)
+    what = "crafted %s %s grams count=%d numbers=%r%s%s (authic=%s)" % (code, "b2" if curt else "b64", count, present,
+                                                                       " reversed" if rev else "", " body not UTF-8" if badutf else "", authic)
     judge_escape(ex, viols, what)
     got = [tuple(x) for x in r.inbox]
+    if badutf:
+        if got:
+            viols.append(("undecodable-delivered", "%s: delivered %r" % (what, got)))
+        return ("craft-badutf", None if ex is None else (ms.site_of(ex), type(ex).__name__), len(got)), viols
     signed = code in ms.SIGNED
     tag = "authic" if authic else "plain"
     if authic and not signed:
@@ -360,7 +366,7 @@ def run_case(job, case):
     if kind == "craft":
         code, curt = job[2], bool(job[3])
         count, rev = case[0], case[1]
-        return run_craft(authic, code, curt, count, tuple(case[4:]), bool(rev))
+        return run_craft(authic, code, curt, count, tuple(case[4:]), bool(rev), badutf=bool(case[2]))
     if kind == "orders":
         code, curt, ng, gi = job[2], bool(job[3]), job[4], job[5]
         return run_order(authic, code, curt, ng, gi, case[0], case[1], case[2])
@@ -439,6 +445,8 @@ def run_job(job, tier, seed):
     elif kind == "craft":
         for count, present, rev in craft_cases():
             do([count, 1 if rev else 0, 0, 0] + list(present), dict(code=job[2], curt=job[3], count=count, numbers=list(present), reversed=rev))
+        for count in (1, 2, 3):      # complete sets whose bytes are not UTF-8: dropped without raising
+            do([count, 0, 1, 0] + list(range(count)), dict(code=job[2], curt=job[3], count=count, badutf=True))
     return acc.result()
 
 
